@@ -711,6 +711,16 @@ fn oracle_c09(o: &mut Out, cx: &mut Ctx, id: &str, a: &[ItemV], b: &[ItemV], tbl
         (Some(x), Some(y)) => (x, y),
         _ => return,
     };
+    // the wire form of a snapshot lists its items by ascending key (type << 16 | id, compared as unsigned) --
+    // the order in which the reference builder stores items that are added in that order
+    if let Ok(Some(ints)) = guard(|| raw_ints(&rb)) {
+        if ints.len() >= 2 {
+            let n = ints[1] as usize;
+            let offs: Vec<usize> = ints[2..2 + n].iter().map(|x| (*x / 4) as usize).collect();
+            let keys: Vec<u32> = offs.iter().map(|o| ints[2 + n + *o] as u32).collect();
+            o.check(keys.windows(2).all(|w| w[0] < w[1]), "-", id, || format!("write_to_ints of B={} lists the items in the key order {:x?}, not ascending", items_txt(b), &keys[..keys.len().min(12)]));
+        }
+    }
     let k09 = is_k09(&ra, &rb);
     let mut d = Delta::new();
     let created = guard(|| d.create_raw(&ra, &rb));
@@ -1331,6 +1341,13 @@ fn oracle_c10(o: &mut Out, id: &str, ops: &[Op], fresh: Uuid) {
     match guard(|| snap_ints(&s)) {
         Ok(Some(ints)) => {
             o.check(ints.len() * 4 <= 65536, "-", id, || format!("{} ints written", ints.len()));
+            // the wire form lists the items by ascending key (type << 16 | id, compared as unsigned), as the reference builder does for items given in that order
+            if ints.len() >= 2 {
+                let n = ints[1] as usize;
+                let offs: Vec<usize> = ints[2..2 + n].iter().map(|x| (*x / 4) as usize).collect();
+                let keys: Vec<u32> = offs.iter().map(|o| ints[2 + n + *o] as u32).collect();
+                o.check(keys.windows(2).all(|w| w[0] < w[1]), "-", id, || format!("write_to_ints lists the items in the key order {:x?}, not ascending", &keys[..keys.len().min(12)]));
+            }
             let mut s2 = Snap::empty();
             let mut w = vec![];
             let r = guard(|| s2.read_from_ints(&mut w, &ints));
@@ -1422,10 +1439,19 @@ fn oracle_c10(o: &mut Out, id: &str, ops: &[Op], fresh: Uuid) {
             let mut refused = false;
             for (n, u) in uuids.iter().enumerate() {
                 let op: Op = (TypeId::Uuid(*u), n as u16, vec![n as i32, -1]);
-                match b.add_item(op.0, op.1, &op.2) { Ok(()) => added.push(op), Err(_) => refused = true }
+                match b.add_item(op.0, op.1, &op.2) {
+                    Ok(()) => added.push(op),
+                    // only the limits may refuse an item here: the keys are new
+                    Err(BuilderError::DuplicateKey) => { bad.push(format!("after recycle: add_item({},{}) = DuplicateKey although the key is new", ty_txt(&op.0), op.1)); refused = true }
+                    Err(_) => refused = true,
+                }
             }
             let op: Op = (TypeId::Uuid(fresh), 7, vec![42]);
-            match b.add_item(op.0, op.1, &op.2) { Ok(()) => added.push(op), Err(_) => refused = true }
+            match b.add_item(op.0, op.1, &op.2) {
+                Ok(()) => added.push(op),
+                Err(BuilderError::DuplicateKey) => { bad.push("after recycle: add_item of an item of a NEW UUID type = DuplicateKey (its type number collides with a registered one)".to_string()); refused = true }
+                Err(_) => refused = true,
+            }
             let s4 = b.finish();
             for op in &added {
                 if s4.item(op.0, op.1) != Some(&op.2[..]) {
